@@ -706,6 +706,24 @@ class GrammarAI:
         st0 = St(win, loc, ms=ms_in)
         self.depth = 0
         finals = self.run_body(body, st0, key)
+        # a returned boolean that still carries a lookahead test is split into its two refined outcomes
+        exp = []
+        for s, rv in finals:
+            if rv[0] == "b" and rv[1] == 2 and len(rv) > 2 and rv[2] == "j":
+                s1 = s.copy()
+                s1.win = s1.win[:4] + (s1.win[4] | rv[3], s1.win[5])
+                s.win = s.win[:4] + (s.win[4], s.win[5] | rv[3])
+                exp.append((s1, B_T))
+                exp.append((s, B_F))
+            elif rv[0] == "b" and rv[1] == 2 and len(rv) > 2:
+                s1 = s.copy()
+                if self.refine_slot(s1, rv[2], rv[3]):
+                    exp.append((s1, B_T))
+                if self.refine_slot(s, rv[2], rv[4]):
+                    exp.append((s, B_F))
+            else:
+                exp.append((s, rv))
+        finals = exp
         merged = {}
         for s, rv in finals:
             rv = self.untie(rv) if self.has_tie(rv) else rv
